@@ -30,7 +30,7 @@ def parse_sexa(s, hours=False):
     return v * 15.0 if hours else v
 
 
-def check_exports(reg, model, name, tmpdir, do_reg=True):
+def check_exports(reg, model, name, tmpdir, do_reg=True, loose=False):
     """all export clauses for one region (deep-copied by the caller); returns list of violation dicts"""
     viols = []
     md = reg.maxdepth
@@ -61,7 +61,7 @@ def check_exports(reg, model, name, tmpdir, do_reg=True):
         elif got != set(model):
             viols.append(dict(kind="moc_pixels", what="%s: decoded MOC has %d deepest-level pixels, region has %d (missing %d, extra %d)" % (
                 name, len(got), len(model), len(set(model) - got), len(got - set(model)))))
-        elif n_expanded != len(got):
+        elif n_expanded != len(got) and not loose:      # loose: last change was union(renorm=False), overlap is deferred work
             viols.append(dict(kind="moc_overlap", what="%s: MOC cells overlap (%d expanded, %d distinct)" % (name, n_expanded, len(got))))
         if order != md:
             viols.append(dict(kind="moc_order", what="%s: MOCORDER=%r, region depth %d" % (name, order, md)))
@@ -144,9 +144,9 @@ def check_exports(reg, model, name, tmpdir, do_reg=True):
 
 
 def _job(item):
-    hist, name, blob, model, do_reg = item
+    hist, name, blob, model, do_reg, loose = item
     reg = pickle.loads(blob)
-    return hist, name, check_exports(reg, model, name, os.environ["VERIF_SCRATCH"], do_reg=do_reg)
+    return hist, name, check_exports(reg, model, name, os.environ["VERIF_SCRATCH"], do_reg=do_reg, loose=loose)
 
 
 def fixed_regions(tier):
@@ -246,9 +246,12 @@ def main(tier, seed, t0):
             key = (name, sysm.canon(state)[["H", "L", "X", "Y"].index(name)])
             if key not in jobs:
                 npx = sum(len(s) for s in r.pixeldict.values())
-                jobs[key] = (hist, name, pickle.dumps(r, -1), state.model[name], npx <= 400)
+                jobs[key] = (hist, name, pickle.dumps(r, -1), state.model[name], npx <= 400, bool(state.loose[name]))
     res = histories.bfs(sysm, depth, visit=visit)
-    for kind, hist, what in res.violations:
+    # and from a populated, once-queried state (histories of length 6 + depth - 1 from the empty state)
+    sys2 = regsys.RegionSystem(prefix=regsys.POPULATED)
+    res2 = histories.bfs(sys2, depth - 1, visit=lambda hist, state: visit(regsys.POPULATED + hist, state))
+    for kind, hist, what in res.violations + res2.violations:
         # C08 territory; a state that already violates set algebra is not exported
         ctx.count("states_skipped_c08_violation")
     pool = mp.get_context("fork").Pool(min(16, os.cpu_count() or 1))
@@ -289,13 +292,17 @@ def main(tier, seed, t0):
     ctx.evaluations = len(results) + 2 * len(fixed_regions(tier))
     ctx.nontrivial_counted = len(results) + len(fixed_regions(tier))
     ctx.samples = [dict(history=h) for h in res.samples] + [dict(fixed=fixed_regions(tier)[5][0])]
-    cov = dict(states=res.states, transitions=res.transitions, traces_validated_against_impl=res.transitions,
-               completed_depth=res.complete_depth, distinct_region_representations_exported=len(results),
+    cov = dict(states=res.states + res2.states, transitions=res.transitions + res2.transitions,
+               traces_validated_against_impl=res.transitions + res2.transitions,
+               completed_depth=res.complete_depth, from_populated_state=dict(prefix=regsys.POPULATED, states=res2.states,
+                                                                             completed_depth=res2.complete_depth),
+               distinct_region_representations_exported=len(results),
                fixed_regions=len(fixed_regions(tier)), operations=len(sysm.oplist),
                explanation="states are those of the C08 history search (real Region objects); every distinct internal "
                            "representation of every register reached within the depth is exported three ways and decoded "
                            "independently; plus the fixed regions x maxdepth 1..12, fresh and after a demoting query")
-    rule = ("exports of every distinct region representation reached by BFS over operation histories (depth %d), plus "
+    rule = ("exports of every distinct region representation reached by BFS over operation histories (depth %d from the empty state, "
+            "one less from a populated once-queried state; the alphabet includes union without renormalisation), plus "
             "{empty, single pixel, circle, whole sky} x maxdepth 1..12 x {fresh, after query}; distinct_nontrivial = "
             "distinct exported representations" % depth)
     return core.finish(__import__("checks.c12", fromlist=["x"]), ctx, t0, extra_coverage=cov, exhaustive=True, rule=rule)
@@ -309,7 +316,7 @@ def evaluate(clause, case, ctx):
         for op in case["history"]:
             st, _ = sysm.apply(st, op)
         name = case["register"]
-        for v in check_exports(st.reg[name], st.model[name], name, tmp):
+        for v in check_exports(st.reg[name], st.model[name], name, tmp, loose=bool(st.loose[name])):
             ctx.violation(v["what"], v["kind"])
     else:
         reg, model = build_fixed(case["kind"], case["maxdepth"])
